@@ -47,6 +47,9 @@ type typeDesc struct {
 	lossyTokens bool
 	// trigger: a minimal trigger class of the value, appended to finding keys ("" = none)
 	trigger func(v interface{}, field string) string
+	// direct: a clause of the property stated directly on the tokens TokenReader yields for v
+	// (independent of decoding and of the model); returns (clause, what) or ("", "")
+	direct func(v interface{}, raw []*Tree) (string, string)
 }
 
 type caseRec struct {
@@ -243,6 +246,11 @@ func (x *runner) runValue(td *typeDesc, v interface{}, c caseRec) {
 	}
 	if td.codec != "" {
 		x.cases.Add(fmt.Sprintf("enc_ok %s %s %s (Ok %s)", td.codec, or.Coq(), coqOf(pv), coqForest(raw)), c)
+	}
+	if td.direct != nil && inRange {
+		if clause, what := td.direct(v, raw); clause != "" {
+			x.fail(td, clause, what, c)
+		}
 	}
 	clean := true
 	for _, t := range raw {
